@@ -415,6 +415,13 @@ func (a *Analyzer) decideErrSite(s *ErrSite, k int) {
 					walk(b.Succs[side], 0)
 					return
 				}
+				// io.EOF is not a failure but the end-of-input signal of a reader: on the side where the error IS io.EOF it has been
+				// looked at and means "nothing more to read"; only the other side carries a failure
+				if side, ok := eofTestSide(t.Cond, func(v ssa.Value) bool { return D[v] }); ok {
+					handledHow["io.EOF recognised as the end of the input"] = true
+					walk(b.Succs[1-side], 0)
+					return
+				}
 			}
 		}
 		for _, sblk := range b.Succs {
@@ -511,4 +518,51 @@ func (a *Analyzer) freshNonNilError(v ssa.Value, D map[ssa.Value]bool) bool {
 func isErrorSlice(t types.Type) bool {
 	sl, ok := t.Underlying().(*types.Slice)
 	return ok && core.IsErrorType(sl.Elem())
+}
+
+// eofTestSide recognises cond as a (possibly negated) test "the error is io.EOF" — errors.Is(e, io.EOF) or e == io.EOF — on a value
+// satisfying is(), and returns the index (0 = then, 1 = else) of the successor taken when the error IS io.EOF.
+func eofTestSide(cond ssa.Value, is func(ssa.Value) bool) (int, bool) {
+	neg := false
+	for {
+		if u, ok := cond.(*ssa.UnOp); ok && u.Op == token.NOT {
+			neg = !neg
+			cond = u.X
+			continue
+		}
+		break
+	}
+	isEOF := func(v ssa.Value) bool {
+		u, ok := v.(*ssa.UnOp)
+		if !ok || u.Op != token.MUL {
+			return false
+		}
+		g, ok := u.X.(*ssa.Global)
+		return ok && g.Pkg != nil && g.Pkg.Pkg.Path() == "io" && g.Name() == "EOF"
+	}
+	eofOnThen := false
+	switch c := cond.(type) {
+	case *ssa.Call:
+		if f := c.Call.StaticCallee(); f == nil || f.String() != "errors.Is" || len(c.Call.Args) != 2 || !is(c.Call.Args[0]) || !isEOF(c.Call.Args[1]) {
+			return 0, false
+		}
+		eofOnThen = true
+	case *ssa.BinOp:
+		if c.Op != token.EQL && c.Op != token.NEQ {
+			return 0, false
+		}
+		if !(is(c.X) && isEOF(c.Y)) && !(is(c.Y) && isEOF(c.X)) {
+			return 0, false
+		}
+		eofOnThen = c.Op == token.EQL
+	default:
+		return 0, false
+	}
+	if neg {
+		eofOnThen = !eofOnThen
+	}
+	if eofOnThen {
+		return 0, true
+	}
+	return 1, true
 }
